@@ -22,6 +22,7 @@ PROP = dict(
         "MM.C12.C12_open_reaches_origin",
         "MM.C12.openWalk_chain",
         "MM.C12.C12_converges",
+        "MM.C12.C12_converges_all",
         "MM.C12.C12_converges_run",
     ],
     spec=True,
